@@ -883,7 +883,25 @@ impl<'a> Gen<'a> {
     }
 
     fn misc_op(&mut self, st: &mut St, out: &mut Vec<Item>) {
-        match self.rng.below(8) {
+        match self.rng.below(9) {
+            8 => {
+                // fri_ext2fold4 on a consistent operand set: the previous value equals the query value
+                // of the domain segment; 16 operands pushed, 15 result elements dropped again
+                let v: Vec<u64> = (0..8).map(|_| if self.rng.chance(1, 8) { self.rng.below(2) } else { self.rng.felt() }).collect();
+                let d = self.rng.below(4) as usize;
+                let poe = 1 + self.rng.below(P - 1);
+                let vals = [self.rng.below(1 << 30), self.rng.felt(), self.rng.felt(), v[2 * d], v[2 * d + 1], poe, d as u64, self.rng.below(1 << 20), v[0], v[1], v[2], v[3], v[4], v[5], v[6], v[7]];
+                for x in vals {
+                    out.push(op(format!("push.{}", x), 1));
+                }
+                out.push(op("fri_ext2fold4", 1));
+                for _ in 0..3 {
+                    out.push(op("dropw", 4));
+                }
+                for _ in 0..3 {
+                    out.push(op("drop", 1));
+                }
+            }
             0 => {
                 out.push(op("sdepth", 1));
                 st.push(U32);
